@@ -47,22 +47,27 @@ an object with `dbusOrder`) whose items are `items`; the items conform to `ts` a
 `vs`, the descriptors among them being `fdl` in wire order (`Rep`: the Python class each type asks for);
 dict keys are hashable and pairwise distinct; the values are within the limits of the wire format
 (`Spec.encodeAll` succeeds: integer ranges, no NUL in strings, arrays up to 2^26 bytes, variant
-signatures up to 255 characters); `fuel` is at least the nesting depth. -/
+signatures up to 255 characters); `fuel` is at least the nesting depth.
+The alignment table is `Code.genAlign`, the table generated from `dbus_types` WHATEVER its entries are
+(`Code.padOK_gen` only needs them between 1 and 8): the round trip does not depend on the alignments being
+the specification's (that is C02), so a symmetric change of an alignment leaves this theorem intact. -/
 theorem C01_roundtrip (le : Bool) (ts : List Ty) (pv : PyVal) (items : List PyVal) (vs : List Val)
     (fdl : List PyVal) (off : Nat) (bs pre suf : Bytes) (fuel : Nat)
     (hts : allWF ts = true)
     (hitems : Code.topItems pv = .ok items)
     (hrep : Code.RepFields fdl vs true ts items 0 fdl.length)
     (hkeys : Code.KeysOKList items)
-    (henc : Spec.encodeAll Spec.alignTable (endianOf le) ts vs off = some bs)
+    (henc : Spec.encodeAll Code.genAlign (endianOf le) ts vs off = some bs)
     (hpre : pre.length = off) (hfuel : depthAll vs ≤ fuel) :
     Code.marshal fuel (renderAll ts) pv off le (some []) = .ok (bs.length, bs, some fdl) ∧
     Code.unmarshal fuel (renderAll ts) (pre ++ bs ++ suf) off le (some fdl) =
       .ok (bs.length, Code.plainList items) := by
   constructor
-  · have h := Code.marshal_eq_spec le ts pv items vs fdl fdl.length off bs fuel hitems hrep henc hfuel
+  · have h := Code.marshal_eq_spec Code.genAlign Code.padOK_gen Code.genAlign_pos le ts pv items vs fdl fdl.length
+      off bs fuel hitems hrep henc hfuel
     simpa using h
-  · exact Code.unmarshal_eq_spec le (some fdl) ts vs off bs pre suf _ fuel hts henc hpre
+  · exact Code.unmarshal_eq_spec Code.genAlign Code.padOK_gen Code.genAlign_pos le (some fdl) ts vs off bs pre suf _
+      fuel hts henc hpre
       (Code.fromSpecFields_of_rep fdl vs true ts items 0 fdl.length hrep hkeys) hfuel
 
 /-- The hypotheses of `C01_roundtrip` are satisfiable: signature `yaiva{sb}h`, values
@@ -78,7 +83,7 @@ example :
     let fdl : List PyVal := [.int .plain 5]
     allWF ts = true ∧ Code.topItems (.list items) = .ok items ∧
       Code.RepFields fdl vs true ts items 0 fdl.length ∧ Code.KeysOKList items ∧
-      (Spec.encodeAll Spec.alignTable (endianOf true) ts vs 5).isSome = true ∧ depthAll vs ≤ 3 := by
+      (Spec.encodeAll Code.genAlign (endianOf true) ts vs 5).isSome = true ∧ depthAll vs ≤ 3 := by
   refine ⟨by decide, rfl, ?_, ?_, by decide, by decide⟩
   · -- y: Byte(7)
     refine ⟨_, _, _, _, 0, rfl, rfl, ?_, ?_⟩
@@ -124,7 +129,7 @@ theorem C01_roundtrip_valid (le : Bool) (ts : List Ty) (pv : PyVal) (items : Lis
     (hitems : Code.topItems pv = .ok items)
     (hrep : Code.RepFields fdl vs true ts items 0 fdl.length)
     (hkeys : Code.KeysOKList items)
-    (henc : Spec.encodeAll Spec.alignTable (endianOf le) ts vs off = some bs)
+    (henc : Spec.encodeAll Code.genAlign (endianOf le) ts vs off = some bs)
     (hpre : pre.length = off) (hfuel : depthAll vs ≤ fuel) :
     Code.marshal fuel (renderAll ts) pv off le (some []) = .ok (bs.length, bs, some fdl) ∧
     Code.unmarshal fuel (renderAll ts) (pre ++ bs ++ suf) off le (some fdl) =
